@@ -407,7 +407,7 @@ def strip_refs(e):
 
 NUMERIC_ADTS = ("dual::dual::Dual", "dual::dual::Dual2")
 ERASE_METHODS = {"clone", "view", "to_owned", "borrow", "as_ref", "to_vec", "into_owned", "view_mut", "cloned", "copied", "deref", "reborrow", "as_slice", "as_mut_slice", "as_mut",
-                 "as_deref", "borrow_mut", "as_str"}
+                 "as_deref", "borrow_mut", "as_str", "transpose"}
 F64_UNARY = {"exp": "exp", "ln": "ln", "log": "ln", "sqrt": "sqrt", "trunc": "trunc", "signum": "signum"}
 
 
@@ -609,6 +609,17 @@ class Ev:
                     self.bind(p, val.fields[n], env)
                 else:
                     self.bind(p, Sym("fieldof", vkey(val), n), env)
+        elif k == "slice":
+            # `[a, b, rest @ .., z]` on a sequence: element i from the front, element len-j from the back (the middle binding is an opaque sub-slice)
+            ek = self.elem_of(val) if isinstance(val, Sym) else None
+            for i, p in enumerate(pat["before"]):
+                self.bind(p, val.items[i] if isinstance(val, Tup) and i < len(val.items) else (ek(Poly.const(i)) if callable(ek) else Sym("at", vkey(val), Poly.const(i).key())), env)
+            na = len(pat["after"])
+            for j, p in enumerate(pat["after"]):
+                idx = Poly.atom(("len", len_base(vkey(val)), None)) - Poly.const(na - j)
+                self.bind(p, ek(idx) if callable(ek) else Sym("at", vkey(val), idx.key()), env)
+            if "mid" in pat:
+                self.bind(pat["mid"], Sym("subslice", vkey(val), len(pat["before"]), na), env)
         else:
             raise Unsupported("pattern " + str(k))
 
@@ -1645,6 +1656,17 @@ class Ev:
                     return True
                 return True
             return None
+        if k == "slice":
+            if isinstance(val, Tup):
+                n_, nb, na = len(val.items), len(pat["before"]), len(pat["after"])
+                if ("mid" in pat and n_ < nb + na) or ("mid" not in pat and n_ != nb + na):
+                    return False
+                res = [self.match_pat(p, v, env) for p, v in zip(pat["before"], val.items[:nb])] + \
+                      [self.match_pat(p, v, env) for p, v in zip(pat["after"], val.items[n_ - na:] if na else [])]
+                if any(r is False for r in res):
+                    return False
+                return None if any(r is None for r in res) else True
+            return None
         if k == "lit":
             if isinstance(val, Poly) and val.const_value() is not None and pat.get("lk") in ("int", "float"):
                 c = F(str(pat["v"]).replace("_", ""))
@@ -1790,6 +1812,8 @@ class Ev:
     def ev_index(self, e, env, depth):
         b = self.eval(e["e"], env, depth)
         i = self.eval(e["i"], env, depth)
+        if isinstance(i, Rec) and i.adt.endswith("ops::RangeFull"):
+            return b              # `c[..]` is all of c
         if isinstance(b, Arr):
             ik = [vkey(x) for x in (i.items if isinstance(i, Tup) else [i])]
             for w in reversed(b.writes):
@@ -1922,6 +1946,16 @@ class Ev:
         # opaque: an unmodelled external function of symbolic arguments (can only fail to match an expected form)
         return Sym("call", d, tuple(vkey(a) for a in args))
 
+    def call_value(self, fval, vals, e, depth):
+        """Call a function item held as a value (`opt.map(helper)`) on already evaluated arguments."""
+        d = fval.tag[1]
+        for suffix, h in self.hooks.items():
+            if not suffix.startswith("@") and d.endswith(suffix):
+                return h(self, vals, e)
+        if self.facts.fn(d) is not None:
+            return self.apply_fn(d, vals, depth)
+        return Sym("call", d, tuple(vkey(a) for a in vals))
+
     def elem_of(self, container):
         """Symbolic element of an iterated container, or None if its shape is not declared."""
         f = self.hooks.get("@elem")
@@ -1935,6 +1969,13 @@ class Ev:
         for suffix, h in self.hooks.items():
             if not suffix.startswith("@") and d.endswith(suffix):
                 return h(self, [recv] + args, e)
+        if m == "next" and not args and strip_refs(e["recv"]).get("k") == "path" and strip_refs(e["recv"]).get("res") == "local" and not self.loops and \
+                isinstance(recv, (Sym, Seq)) and not (isinstance(recv, Sym) and recv.tag[:1] == ("ctor",)):
+            # pulling from a local iterator: the k-th pull is item k of the sequence it was created over (None once exhausted); the iterator advances
+            rid = strip_refs(e["recv"])["id"]
+            base, k_ = (recv.tag[1], recv.tag[2]) if isinstance(recv, Sym) and recv.tag[:1] == ("advanced",) else (vkey(recv), 0)
+            env[rid] = Sym("advanced", base, k_ + 1)
+            return Sym("nth", base, k_)
         if m in ("into_iter", "iter") and not args and isinstance(recv, Sym) and recv.tag[:2] in (("ctor", "Some"), ("ctor", "None")) and len(recv.tag) <= 3:
             # an Option iterates over its payload once, or not at all
             if recv.tag[1] == "None":
@@ -1969,7 +2010,8 @@ class Ev:
             el = self.elem_of(recv)
             if el is not None:
                 return Seq(recv, el if callable(el) else (lambda idx, el=el: el))
-        if isinstance(recv, Sym) and m in ("map", "filter", "enumerate", "zip", "all", "any", "fold", "for_each", "filter_map", "flat_map") and recv.tag[:1] != ("ctor",):
+        if isinstance(recv, Sym) and m in ("map", "filter", "enumerate", "zip", "all", "any", "fold", "for_each", "filter_map", "flat_map") and recv.tag[:1] != ("ctor",) and \
+                not (e["recv"].get("ty") or "").replace("&", "").startswith(("std::option::Option<", "std::result::Result<")):
             # an opaque value that is itself an iterator (`s.split(",")`): same sequence as when a `for` loop walks it
             el = self.elem_of(recv)
             if el is not None:
@@ -2294,6 +2336,18 @@ class Ev:
             self.bind(f.params[0], recv, env2)
             body = self.collapse(self.eval(f.body, env2, depth))
             return body if m == "and_then" else Sym("ctor", "Ok", body)
+        if isinstance(recv, Sym) and recv.tag[:1] != ("ctor",) and m == "map" and len(args) == 1 and (isinstance(args[0], Clo) or (isinstance(args[0], Sym) and args[0].tag[:1] == ("fn",))) and \
+                (e["recv"].get("ty") or "").replace("&", "").startswith("std::option::Option<") and (e.get("ty") or "").startswith("std::option::Option<std::result::Result<"):
+            # `opt.map(fallible)` (followed by transpose()?): Some(v) => Some(fallible(v)), None => None — the two paths of the explicit match
+            g = ("arm", ("Some", "_"), vkey(recv))
+            pv = Sym("payload", vkey(recv), 0)
+            if isinstance(args[0], Clo):
+                env2 = dict(args[0].env)
+                self.bind(args[0].params[0], pv, env2)
+                body = self.collapse(self.eval(args[0].body, env2, depth))
+            else:
+                body = self.call_value(args[0], [pv], e, depth)
+            return Alt([(g, Sym("ctor", "Some", body)), (("not", g), Sym("ctor", "None"))])
         if isinstance(recv, Sym) and m in ("map_or", "map", "and_then", "is_some_and") and args and isinstance(args[-1], Clo):
             f = args[-1]
             env2 = dict(f.env)
@@ -2628,4 +2682,6 @@ def pat_key(p):
         return tuple(pat_key(x) for x in p["ps"])
     if k in ("ref", "box", "deref"):
         return pat_key(p["p"])
+    if k == "slice":
+        return ("slice", len(p["before"]), "mid" in p, len(p["after"]))          # what the arm tests is the length: == before+after, or >= with a `..`
     return k
